@@ -69,4 +69,22 @@ CHECKS = {
            'checks': {'quick': 3000, 'thorough': 100000},
            'shards': {'quick': 2, 'thorough': 8},
            'env': {'GODEBUG': 'panicnil=1'}}]},
+    'C18': {'level': 'exploration',
+ 'assumptions': ['code_<n> spellings with signs, leading zeros, n in 1..16 or n ≥ 2^32 are a grey zone and not asserted',
+                 'the black-box encoder path needs valid UTF-8 (the binary status message is a proto string); arbitrary bytes reach the encoder only through '
+                 'the optional go:linkname sub-check'],
+ 'jobs': [{'pkg': 'c18', 'run': 'TestCodeTextRandom', 'checks': {'quick': 20000, 'thorough': 400000}, 'shards': {'quick': 1, 'thorough': 4}},
+          {'pkg': 'c18', 'run': 'TestCodeTextEnum', 'shards': {'quick': 1, 'thorough': 16}, 'timeout': {'quick': 300, 'thorough': 3000}},
+          {'pkg': 'c18', 'run': 'TestCodeTextReject', 'checks': {'quick': 20000, 'thorough': 400000}, 'shards': {'quick': 1, 'thorough': 4}},
+          {'pkg': 'c18', 'run': 'TestPercentBlackBox', 'checks': {'quick': 8000, 'thorough': 320000}, 'shards': {'quick': 4, 'thorough': 16}},
+          {'pkg': 'c18', 'run': 'TestPercentDecoderTotal', 'checks': {'quick': 8000, 'thorough': 320000}, 'shards': {'quick': 2, 'thorough': 8}},
+          {'pkg': 'c18', 'run': 'TestPercentEnum', 'shards': {'quick': 4, 'thorough': 16}, 'timeout': {'quick': 300, 'thorough': 3000}},
+          {'pkg': 'c18', 'run': 'TestCodeStatusBlackBox', 'checks': {'quick': 8000, 'thorough': 160000}, 'shards': {'quick': 2, 'thorough': 8}},
+          {'pkg': 'c18', 'run': 'TestBinaryHeader', 'checks': {'quick': 20000, 'thorough': 400000}, 'shards': {'quick': 1, 'thorough': 4}},
+          {'pkg': 'c18link',
+           'run': 'TestStatusAllCodes',
+           'optional': True,
+           'shards': {'quick': 8, 'thorough': 16},
+           'timeout': {'quick': 300, 'thorough': 3000}},
+          {'pkg': 'c18link', 'run': 'TestPercentAllShort', 'optional': True, 'shards': {'quick': 8, 'thorough': 16}}]},
 }
